@@ -47,7 +47,7 @@ class Tick:
     def __hash__(self): return hash(("T", self.t))
     def __repr__(self): return f"Tick({self.t})"
 
-class TickScheduler(TestScheduler):
+class TickMixin:
     @classmethod
     def to_datetime(cls, value):
         if isinstance(value, Tick): return value
@@ -63,8 +63,15 @@ class TickScheduler(TestScheduler):
     def to_seconds(cls, value):
         if isinstance(value, (Tick, Span)): return value.t
         return value
+
+
+class TickScheduler(TickMixin, TestScheduler):
     def schedule_absolute(self, duetime, action, state=None):
         return VirtualTimeScheduler.schedule_absolute(self, self.to_seconds(duetime), action, state)
+
+
+class TickVTS(TickMixin, VirtualTimeScheduler):
+    """the plain VirtualTimeScheduler on integer ticks"""
 
 
 import os as _os
